@@ -20,6 +20,9 @@ Three exhaustive families of histories (bounds per tier in ``bounds()``):
   H4  falsy processor outputs: every chain of 1-2 response processors drawn from a tagging processor and
       processors whose legitimate output is None, 0, [], "" (built by wraps, lists, clones): the next outer
       processor / the caller must receive exactly that value;
+  H5  characters a URL-quoting step would change: paths with a percent-encoded segment, "?", "#", a blank,
+      a non-ASCII character (and one such prefix), with and without params, through root / prefix / caller /
+      clone chains: the url must be address + path exactly as given;
   H2  request sequences: every interleaving of D2 derivations and K requests (no probing in between),
       requests taken from node x entry point x a small shape alphabet; caller-owned header/param/body
       objects are *shared* between the requests of one history.
@@ -97,6 +100,8 @@ REQUIRED_FEATURES = [
     "auth:clone-adapter:b64-sextet-62+63",
     "processor:returns-null", "processor:returns-0", "processor:returns-[]", 'processor:returns-""',
     "processor:falsy-output-into-outer-processor", "processor:falsy-output-to-caller",
+    "path:percent-encoded", "path:question-mark", "path:hash", "path:space", "path:non-ascii",
+    "path:question-mark+params", "prefix:special-characters",
     "root:tuple-slash", "root:dict-slash", "root:str-2slash",
     "url:address-ends-with-slash+relative-path", "url:address-ends-with-slash+relative-prefix",
     "shared-caller-object-reused", "root:str", "root:str-slash", "root:list", "root:dict-noids",
@@ -134,6 +139,10 @@ AUTH_LAYER = {"basic": BASIC, "token": TOKEN, "client": CLIENT}
 
 VERBS = ["get", "post", "put", "delete", "patch"]
 PATHS = ["/r/s", "r/s", ""]
+# paths / one prefix containing what a URL-quoting step would change (url-encoding applies to params only)
+SPECIAL_PATHS = {"percent-encoded": "/files/reports%2F2024.txt", "question-mark": "/q/what?now=1",
+                 "hash": "/docs/a#b", "space": "/my docs/x y", "non-ascii": "/caf\u00e9/\u00fc"}
+SPECIAL_PREFIX = ["prefix", "/pre fix%2F\u00e9"]
 PAIRS = [["tag", "red"], ["tag", "blue"], ["limit", 5], ["b c", "x&y=é"]]     # a repeated name: needs pairs
 # None | mapping | list of pairs (realised as a list of tuples) | {"pairs-tuple": ...} (tuple of tuples) | empty
 PARAMS = [None, {"a": "1", "b c": "x&y=é"}, PAIRS, {"pairs-tuple": PAIRS}, {}, []]
@@ -203,6 +212,7 @@ def bounds(tier):
     return {"H1_derivation_depth_per_root": t["H1"], "H0_family_depth_per_root": t["H0"],
             "H2_root_derivations_requests": t["H2"], "H3_family_depth_per_root": t["H3"],
             "H4_processor_chain_roots": t["H4"], "processor_outputs": CONSTS,
+            "H5_special_paths": SPECIAL_PATHS, "H5_special_prefix": SPECIAL_PREFIX[1],
             "canned_response_bodies": RESP_BODIES,
             "roots": {k: v["conn_data"] for k, v in ROOTS.items()},
             "layers": [P1, P2, PQ, PC1, PC2, BASIC, TOKEN, CLIENT, HDR, ["resp", "<position>"], RS],
@@ -529,6 +539,8 @@ class World:
                     cn = n if n["kind"] == "conn" else fam.nodes[n["conn"]]
                     if l[0] == "basic" and n["made_by"].startswith("clone") and len(prof) >= 2 and l in cn["own"]:
                         cf.add("auth:clone-adapter:b64-sextet-62+63")
+            if SPECIAL_PREFIX in chain:
+                cf.add("prefix:special-characters")
             procs = [l for l in chain if l[0] in ("resp", "const")]
             for i, l in enumerate(procs):
                 if l[0] == "const":
@@ -629,6 +641,11 @@ def _shape_features(shp):
     k = _SHAPE_FEATS.get(id(shp))
     if k is None or k[0] is not shp:
         f = {"verb:" + shp["verb"], "body:" + shp["data"][0]}
+        for name, sp in SPECIAL_PATHS.items():
+            if shp["path"] == sp:
+                f.add("path:" + name)
+                if name == "question-mark" and shp["params"]:
+                    f.add("path:question-mark+params")
         pr = shp["params"]
         if pr is not None:
             f.add("arg:params")
@@ -862,6 +879,7 @@ def shards(tier):
                 out.append(("H3", root, depth, i))
     for root in t["H4"]:
         out.append(("H4", root))
+        out.append(("H5", root))
     for root, nd, nr in t["H2"]:
         for pat in patterns(nd, nr):
             for i in range(n_first_choices(root, last=False) - 0):
@@ -1068,6 +1086,22 @@ def run_shard(shard, tier, seed, acc):
                         _report(acc, rootname, findings, shrunk)
                 if acc.expired():
                     return
+        elif kind == "H5":
+            shapes = [shape(v, pth, params=prm) for pth in list(SPECIAL_PATHS.values()) + ["/r/s", "r/s"]
+                      for v, prm in (("get", None), ("get", PARAMS[1]), ("post", PAIRS))]
+            for ops in ([], [["wrap", 0, [P1], "single"]], [["wrap", 0, [SPECIAL_PREFIX], "single"]], [["caller", 0]],
+                        [["caller", 0], ["clone", 1, [SPECIAL_PREFIX], "single"]],
+                        [["wrap", 0, [SPECIAL_PREFIX], "single"], ["wrap", 1, [P2], "single"]]):
+                fam = _fresh_family(rootname)
+                for o in ops:
+                    model_apply(fam, o)
+                reqs = []
+                for node, n in enumerate(fam.nodes):
+                    for entry in (["conn"] if n["kind"] == "conn" else ["m_plain", "m_a"]):
+                        reqs.extend(["req", node, entry, s] for s in shapes)
+                w, findings, executed = run_ops(rootname, ops + reqs)
+                _account(acc, w, findings, len(executed))
+                _report(acc, rootname, findings, shrunk)
         elif kind == "H4":
             for ops in processor_histories():
                 fam = _fresh_family(rootname)
